@@ -145,6 +145,7 @@ func c16(r *core.Run) {
 		}
 		r.Floor("C16.P1", "data deletes reachable from GC", n, 2)
 	}
+	refCountMultiplicity(r, "C16.A2")
 }
 
 // derivesViaCells: DerivesFrom, additionally following copies through local arrays/slices
@@ -463,4 +464,5 @@ func c17(r *core.Run) {
 		r.Check("C17.H1", "C17.H1@"+ciPkg+".(*ChunkInfo).DelFile#deletes persisted "+g.Name(), del.Pos(), cleared,
 			"deleting a file deletes its persisted records under prefix "+g.Name(), "nothing reachable from DelFile deletes store keys under "+g.Name()+": a persisted record of the deleted file survives")
 	}
+	refCountMultiplicity(r, "C17.A2")
 }
